@@ -259,7 +259,13 @@ func (p *sparser) typeName() string {
 			p.pos++
 			continue
 		}
-		if t.kind == "id" || t.kind == "int" {
+		if t.kind == "int" {
+			// the length of an array type: [10]byte
+			b.WriteString(t.text)
+			p.pos++
+			continue
+		}
+		if t.kind == "id" {
 			b.WriteString(t.text)
 			p.pos++
 			// continue only if followed by '.' or was preceded by incomplete
